@@ -34,7 +34,7 @@ def configs(tier, seed):
             out.append({'name': '%s-grid-%s' % (impl, m), 'impl': impl,
                         'mode': 'enum', 'grid_mode': m})
         out.append({'name': impl + '-multi', 'impl': impl, 'mode': 'hyp',
-                    'n': 4000 if tier == 'quick' else 60000})
+                    'n': 4000 if tier == 'quick' else 20000})
     return out
 
 
